@@ -207,7 +207,8 @@ Record pp_sum (x x' : tc) (v h : N) (ent : ppent) : Prop := {
   ps_ppmono : pp_stable (tc_t x) (tc_t x');
   ps_p : forall q, In q (t_p (tc_t x')) -> In q (t_p (tc_t x)) \/ q = (v, h, my_sig c);
   ps_pmono : incl (t_p (tc_t x)) (t_p (tc_t x'));
-  ps_c : forall q, In q (t_c (tc_t x')) -> In q (t_c (tc_t x)) \/ (q = (v, h, my_sig c) /\ In (v, h) (C x'));
+  ps_c : forall q, In q (t_c (tc_t x')) -> In q (t_c (tc_t x)) \/
+           (q = (v, h, my_sig c) /\ In (v, h) (C x') /\ lockv x' = Some v /\ lockv x <> Some v /\ hash_at (tc_t x') v = h);
   ps_cmono : incl (t_c (tc_t x)) (t_c (tc_t x'));
   ps_C : grows_by (C x) (C x') (v, h);
   ps_D : grows_by (D x) (D x') (v, h);
@@ -261,7 +262,7 @@ Proof.
   - rewrite P6, B1, U6. apply incl_store_in.
   - intros q Hq. destruct P11 as [(Q1 & Q2 & Q3)|(Q1 & Q2 & Q3 & Q4 & Q5 & Q6 & Q7)].
     + left. rewrite Q2, B1, U4 in Hq. exact Hq.
-    + destruct (Q6 q Hq) as [Hq'|Hq']; [left|right; split; [exact Hq'|exact Q5]]. rewrite B1, U4 in Hq'. exact Hq'.
+    + destruct (Q6 q Hq) as [Hq'|Hq']; [left; rewrite B1, U4 in Hq'; exact Hq'|right]. unfold lockv in *. rewrite B1, U5 in Q1. auto.
   - destruct P11 as [(Q1 & Q2 & Q3)|(Q1 & Q2 & Q3 & Q4 & Q5 & Q6 & Q7)].
     + rewrite Q2, B1, U4. apply incl_refl.
     + rewrite B1, U4 in Q7. exact Q7.
@@ -384,6 +385,12 @@ Definition origin (x x' : tc) (v y : N) : Prop :=
   \/ (exists to r s, In (OSend to (MP r s)) (tc_out x') /\ ~ In (OSend to (MP r s)) (tc_out x) /\ r_view r = v /\ r_hash r = y)
   \/ (exists to ty i hh vs sg pp pps b, In (OSend to (MNV ty i hh v vs sg pp pps b)) (tc_out x') /\ own_nv_facts x' v y vs pp b).
 
+(* the proof inside a vote this node casts is made of what it has stored *)
+Definition own_proof_from (x : tc) (vt : vote) : Prop :=
+  forall p, v_proof vt = Some p ->
+    (exists en, get_pp (tc_t x) (r_view (pf_ppref p)) = Some en /\ pe_snd en = pf_ppsnd p /\ r_hash (pe_ref en) = r_hash (pf_ppref p)) /\
+    (forall s, In s (pf_psnds p) -> In (r_view (pf_pref p), r_hash (pf_pref p), s) (t_p (tc_t x))).
+
 Record step_sum (e : tev) (x x' : tc) : Prop := {
   ss_v : tc_v x <= tc_v x';
   ss_hc : t_h (tc_t x') = t_h (tc_t x) /\ t_cm (tc_t x') = t_cm (tc_t x);
@@ -397,14 +404,15 @@ Record step_sum (e : tev) (x x' : tc) : Prop := {
            (lockv x' = Some v /\ lockv x <> Some v /\ hash_at (tc_t x') v = y);
   ss_D : forall v y, In (v, y) (D x') -> In (v, y) (D x) \/ commit_facts x' v y;
   ss_Vt : forall vt, In vt (Vt me x') -> In vt (Vt me x) \/
-           (v_view vt <= tc_v x' /\ tc_v x < v_view vt /\ lock_of vt = L x /\ lockv x' = lockv x /\ s_id (v_snd vt) = me);
+           (v_view vt <= tc_v x' /\ tc_v x < v_view vt /\ lock_of vt = L x /\ lockv x' = lockv x /\ s_id (v_snd vt) = me /\ own_proof_from x vt);
   ss_Vt_one : forall a b, In a (Vt me x') -> ~ In a (Vt me x) -> In b (Vt me x') -> ~ In b (Vt me x) -> a = b;
   ss_lock : lockv x' = lockv x \/
             (exists v, lockv x' = Some v /\ lockv x <> Some v /\ v = tc_v x' /\ certP (tc_t x') v (hash_at (tc_t x') v) /\ Vt me x' = Vt me x);
   ss_p : forall v h s, In (v, h, s) (t_p (tc_t x')) -> In (v, h, s) (t_p (tc_t x)) \/ (s = my_sig c /\ In (v, h) (E x')) \/
            (exists r wm' sh', e = TMsg (MP r s) wm' sh' /\ r_type r = T_PREPARE /\ r_view r = v /\ r_hash r = h);
-  ss_c : forall v h s, In (v, h, s) (t_c (tc_t x')) -> In (v, h, s) (t_c (tc_t x)) \/ (s = my_sig c /\ In (v, h) (C x')) \/
-           (exists r o wm' sh', e = TMsg (MC r s o) wm' sh' /\ r_type r = T_COMMIT /\ r_view r = v /\ r_hash r = h);
+  ss_c : forall v h s, In (v, h, s) (t_c (tc_t x')) -> In (v, h, s) (t_c (tc_t x)) \/
+           (s = my_sig c /\ In (v, h) (C x') /\ lockv x' = Some v /\ lockv x <> Some v /\ hash_at (tc_t x') v = h) \/
+           (exists r o wm' sh', e = TMsg (MC r s o) wm' sh' /\ r_type r = T_COMMIT /\ r_view r = v /\ r_hash r = h /\ s_ok s = true);
   ss_pp : forall v en, get_pp (tc_t x') v = Some en -> get_pp (tc_t x) v = Some en \/
            (pe_snd en = my_sig c /\ r_view (pe_ref en) = v /\ In (v, r_hash (pe_ref en)) (E x')) \/
            (exists r s b wm' sh', e = TMsg (MPP r s b) wm' sh' /\ en = {| pe_ref := r; pe_snd := s; pe_blk := b |} /\ r_view r = v) \/
@@ -440,7 +448,7 @@ Proof.
   unfold handle_c. destruct o; cbn [negb]; [|apply step_sum_refl].
   destruct (N.eqb_spec (r_type r) T_COMMIT) as [Ety|]; cbn [negb]; [|apply step_sum_refl].
   destruct (isMember _ _); cbn [negb]; [|apply step_sum_refl].
-  destruct (s_ok s); cbn [negb]; [|apply step_sum_refl].
+  destruct (s_ok s) eqn:Esok; cbn [negb]; [|apply step_sum_refl].
   set (v := r_view r). set (h := r_hash r).
   set (x0 := if has_c (tc_t x) v h (s_id s) then x else _).
   assert (F0 : tc_t x0 = tc_t x /\ tc_v x0 = tc_v x /\ E x0 = E x /\ C x0 = C x /\ D x0 = D x /\ sentv x0 = sentv x /\ incl (tc_out x) (tc_out x0)).
@@ -531,7 +539,7 @@ Proof.
     destruct (In_store_in _ _ _ _ _ _ _ H) as [H'|H']; [left; exact H'|]. inversion H'; subst. right; right. do 3 eexists. repeat split; auto.
   - intros v' h' s' H. destruct P11 as [(Q1 & Q2 & Q3)|(Q1 & Q2 & Q3 & Q4 & Q5 & Q6 & Q7)].
     + left. rewrite Q2 in H. subst xa. exact H.
-    + destruct (Q6 _ H) as [H'|H']; [left; subst xa; exact H'|]. inversion H'; subst. right; left. split; [reflexivity|exact Q5].
+    + destruct (Q6 _ H) as [H'|H']; [left; subst xa; exact H'|]. inversion H'; subst. right; left. unfold lockv in *. subst xa. cbn [tc_set_t tc_t store_p t_prepared] in Q1. auto.
   - intros v' en H. left. apply Gpp. exact H.
   - intros v' vt b H. left. rewrite P4 in H. subst xa. exact H.
 Qed.
@@ -588,7 +596,7 @@ Proof.
     + left. rewrite Q1. unfold lockv. exact K11.
     + right. exists v. unfold lockv in *. rewrite K11 in Q1. split; [exact Q2|]. split; [exact Q1|]. split; [rewrite S1; symmetry; exact Ev|]. split; [rewrite Q3; exact Q4|exact EV].
   - intros v' h' s' H. destruct (S8 _ H) as [H'|H']; [left; rewrite K8 in H'; exact H'|]. inversion H'; subst. right; left. split; [reflexivity|]. rewrite S2. left; reflexivity.
-  - intros v' h' s' H. destruct (S10 _ H) as [H'|[H' H'']]; [left; rewrite K9 in H'; exact H'|]. inversion H'; subst. right; left. split; [reflexivity|exact H''].
+  - intros v' h' s' H. destruct (S10 _ H) as [H'|(H' & H1 & H2 & H3 & H4)]; [left; rewrite K9 in H'; exact H'|]. inversion H'; subst. right; left. unfold lockv in *. rewrite K11 in H3. auto.
   - intros v' en H. destruct (S6 _ _ H) as [H'|[-> ->]]; [left; apply GP; exact H'|].
     right; right. destruct (Horig _ eq_refl) as [(r0 & s0 & b0 & wm' & sh' & A & B & C0)|(nty & ninst & nh & nvw & vs & sg & pp & pps & b0 & wm' & sh' & A & B & C0)].
     + left. exists r0, s0, b0, wm', sh'. repeat split; auto.
@@ -705,14 +713,15 @@ Proof.
   - intros v' y H. rewrite S2 in H. apply T10 in H. destruct H as [H|(H1 & en & b & G1 & G2 & G3 & G4)]; auto.
     right. split; [unfold certC in *; rewrite S7, S8'; exact H1|]. exists en, b. split; [apply S10; exact G1|]. split; [exact G2|]. split; [exact G3|].
     rewrite Sc. exact G4.
-  - intros vt H. rewrite EV in H. apply T11 in H. destruct H as [H|(H1 & H2 & H3 & H4 & H5)]; auto.
-    right. split; [lia|]. split; [exact H2|]. split; [exact H3|]. split; [rewrite S3; exact H4|exact H5].
+  - intros vt H. rewrite EV in H. apply T11 in H. destruct H as [H|(H1 & H2 & H3 & H4 & H5 & H6)]; auto.
+    right. split; [lia|]. split; [exact H2|]. split; [exact H3|]. split; [rewrite S3; exact H4|]. split; [exact H5|exact H6].
   - rewrite EV. exact T11'.
   - left. rewrite S3. exact Hlock.
   - intros v' h' s' H. rewrite S6 in H. apply T13 in H. destruct H as [H|[[H1 H2]|H]]; auto.
     right; left. split; [exact H1|]. destruct S11 as [[Ee _]|(h & Ee & _)]; rewrite Ee; [exact H2|right; exact H2].
-  - intros v' h' s' H. rewrite S7 in H. apply T14 in H. destruct H as [H|[[H1 H2]|H]]; auto.
-    right; left. split; [exact H1|]. rewrite S1. exact H2.
+  - intros v' h' s' H. rewrite S7 in H. apply T14 in H. destruct H as [H|[(H1 & H2 & H3 & H4 & H5)|H]]; auto.
+    right; left. split; [exact H1|]. rewrite S1. split; [exact H2|]. rewrite S3. split; [exact H3|]. split; [exact H4|].
+    unfold hash_at in *. destruct (get_pp (tc_t xa) v') as [en|] eqn:G; [rewrite (S10 _ _ G); exact H5|]. destruct (si_prep _ _ SIa v' H3) as (en & _ & G' & _). congruence.
   - intros v' en H. destruct S11 as [[Ee Hpp]|(h & Ee & Ev & Hpp & _)].
     + apply Hpp in H. apply T15 in H. destruct H as [H|[(H1 & H2 & H3)|H]]; auto. right; left. rewrite Ee. auto.
     + destruct (Hpp _ _ H) as [H'|(-> & H1 & H2 & H3)].
@@ -739,7 +748,7 @@ Lemma stored_vote_step e x x0 v vt b : TInv c x -> SInv c x ->
   (forall to ty i hh nv vs sg pp pps b', In (OSend to (MNV ty i hh nv vs sg pp pps b')) (tc_out x0) -> In (OSend to (MNV ty i hh nv vs sg pp pps b')) (tc_out x)) ->
   SInv c x0 -> vc_good c (tc_t x) v vt b ->
   ((exists wm' sh', e = TMsg (MVC vt b) wm' sh') /\ s_id (v_snd vt) <> me \/
-   (s_id (v_snd vt) = me /\ v_view vt <= tc_v x0 /\ tc_v x < v_view vt /\ lock_of vt = L x)) ->
+   (s_id (v_snd vt) = me /\ v_view vt <= tc_v x0 /\ tc_v x < v_view vt /\ lock_of vt = L x /\ own_proof_from x vt)) ->
   step_sum e x (check_elected c wm shut (tc_set_t (store_vc v vt b (tc_t x)) x0) v).
 Proof.
   intros TI SI Et Ev EE EC ED ES Hout Hnv SI0 VG Horig.
@@ -775,8 +784,8 @@ Proof.
         apply in_app_or in H. destruct H as [H|H]; [left; unfold Vt; apply in_or_app; left; exact H|].
         apply in_app_or in H. destruct H as [H|H]; [left; unfold Vt; apply in_or_app; right; exact H|].
         destruct (N.eqb_spec (s_id (v_snd vt)) me) as [Eme|Nme]; [|destruct H].
-        destruct H as [<-|[]]. destruct Horig as [[_ Hne]|(_ & H2 & H3 & H4)]; [contradiction|].
-        right. unfold lockv. cbn [tc_set_t tc_t]. rewrite V5. auto.
+        destruct H as [<-|[]]. destruct Horig as [[_ Hne]|(_ & H2 & H3 & H4 & H5)]; [contradiction|].
+        right. unfold lockv. cbn [tc_set_t tc_t]. rewrite V5. auto 10.
       * assert (NEW : forall a, In a (Vt me (tc_set_t (store_vc v vt b (tc_t x)) x0)) -> ~ In a (Vt me x) -> a = vt).
         { intros a H Hn. unfold Vt in H. cbn [tc_set_t tc_out tc_t] in H. fold (sentv x0) in H. rewrite ES, EVa in H.
           apply in_app_or in H. destruct H as [H|H]; [exfalso; apply Hn; unfold Vt; apply in_or_app; left; exact H|].
@@ -873,7 +882,7 @@ Proof.
   set (prf := match fst res with Some (p, _) => Some p | None => None end).
   set (blk := match fst res with Some (_, ob) => ob | None => None end).
   set (vt := {| v_type := T_VIEW_CHANGE; v_inst := c_inst c; v_height := t_h (tc_t x); v_view := v1; v_proof := prf; v_snd := my_sig c |}).
-  assert (LK : lock_of vt = L x /\ vc_good c (tc_t x) v1 vt blk).
+  assert (LK : lock_of vt = L x /\ vc_good c (tc_t x) v1 vt blk /\ own_proof_from x vt).
   { unfold lock_of, L, lockv, vc_good. cbn [vt v_proof v_view v_height]. subst prf blk res.
     destruct (t_prepared (tc_t x)) as [pv|] eqn:Ep.
     - assert (Hpv : pv < v1).
@@ -881,15 +890,22 @@ Proof.
       destruct (extract_proof_spec c x pv v1 SI Ep Hpv) as (p & b & E0 & PS & Pv & Cm). rewrite E0. cbn [fst snd].
       destruct (si_prep _ _ SI pv Ep) as (e & b0 & G1 & _).
       destruct (hash_at_extract (tc_t x) pv p (Some b) ltac:(congruence) E0) as [_ Hh].
-      split; [rewrite Pv, Hh; reflexivity|]. split; [reflexivity|]. split; [reflexivity|].
-      split; [|exact Cm]. constructor; cbn [v_type v_inst v_snd my_sig s_id s_ok v_proof]; auto.
+      split; [rewrite Pv, Hh; reflexivity|]. split; [split; [reflexivity|]; split; [reflexivity|];
+      split; [|exact Cm]; constructor; cbn [v_type v_inst v_snd my_sig s_id s_ok v_proof]; auto|].
       + apply (si_me _ _ SI).
       + intros p' Ep'. cbn [vt v_proof] in Ep'. rewrite ?Ep, ?E0 in Ep'. cbn [fst snd] in Ep'. inversion Ep'; subst. exact PS.
-    - cbn [fst snd]. split; [reflexivity|]. split; [reflexivity|]. split; [reflexivity|]. split; [|exact Logic.I].
-      constructor; cbn [v_type v_inst v_snd my_sig s_id s_ok v_proof]; auto.
+      + intros p' Ep'. cbn [vt v_proof] in Ep'. rewrite ?Ep, ?E0 in Ep'. cbn [fst snd] in Ep'. inversion Ep'; subst p'. clear Ep'.
+        unfold extract_proof in E0. rewrite G1 in E0. destruct (negb _); [discriminate|]. destruct (negb _); [discriminate|].
+        destruct (bucket (t_p (tc_t x)) pv (r_hash (pe_ref e))) eqn:Eb; [discriminate|]. inversion E0; subst p. cbn [pf_ppref pf_ppsnd pf_pref pf_psnds r_view r_hash].
+        destruct (si_pp _ _ SI pv e G1) as [[PV _ _ _ _ _ _] _]. split.
+        * exists e. rewrite PV. auto.
+        * intros s0 Hs0. apply In_bucket. rewrite Eb. apply (Permutation.Permutation_in _ (sort_by_perm s_id _)). exact Hs0.
+    - cbn [fst snd]. split; [reflexivity|]. split; [split; [reflexivity|]; split; [reflexivity|]; split; [|exact Logic.I];
+      constructor; cbn [v_type v_inst v_snd my_sig s_id s_ok v_proof]; auto|].
       + apply (si_me _ _ SI).
+      + intros p' Ep'. discriminate.
       + intros p' Ep'. discriminate. }
-  destruct LK as [LK VG].
+  destruct LK as (LK & VG & OPF).
   destruct (N.eqb_spec (leaderOf (t_cm (tc_t x)) v1) me) as [El|Nl].
   - set (x2 := if has_vc _ _ _ then x1 else _).
     assert (F2 : SInv c x2 /\ tc_t x2 = tc_t x /\ tc_v x2 = v1 /\ E x2 = E x /\ C x2 = C x /\ D x2 = D x /\ sentv x2 = sentv x /\ incl (tc_out x) (tc_out x2) /\
@@ -903,7 +919,7 @@ Proof.
         + intros to ty i hh nv vs sg pp pps b' [H|H]; [discriminate|apply A8; exact H]. }
     destruct F2 as (I2 & B1 & B2 & B3 & B4 & B5 & B6 & B7 & B8).
     apply stored_vote_step; auto; try lia.
-    right. cbn [vt v_snd my_sig s_id v_view]. split; [reflexivity|]. split; [lia|]. split; [lia|exact LK].
+    right. cbn [vt v_snd my_sig s_id v_view]. split; [reflexivity|]. split; [lia|]. split; [lia|]. split; [exact LK|exact OPF].
   - (* the vote goes to the leader of the next view *)
     set (x' := tc_emit (OSend [leaderOf (t_cm (tc_t x)) v1] (MVC vt blk)) x1).
     assert (EV : forall vt', In vt' (Vt me x') -> In vt' (Vt me x) \/ vt' = vt).
@@ -916,7 +932,7 @@ Proof.
     + intros v' y H. left. rewrite C_emit_send in H. cbn [committed_of app] in H. rewrite A4 in H. exact H.
     + intros v' y H. left. unfold D in *. cbn [tc_emit tc_out flat_map decided_of app] in H. exact H.
     + intros vt' H. destruct (EV vt' H) as [H'|H']; [left; exact H'|subst vt']. right. cbn [vt v_view v_snd my_sig s_id]. unfold lockv. cbn [tc_emit tc_t]. rewrite A1.
-      split; [lia|]. split; [lia|]. split; [exact LK|]. split; reflexivity.
+      split; [lia|]. split; [lia|]. split; [exact LK|]. split; [reflexivity|]. split; [reflexivity|exact OPF].
     + intros a b' Ha Hna Hb Hnb. destruct (EV a Ha) as [Hx|Hx]; [contradiction|]. destruct (EV b' Hb) as [Hy|Hy]; [contradiction|]. congruence.
     + left. unfold lockv. cbn [tc_emit tc_t]. rewrite A1. reflexivity.
     + intros v' h' s' H. left. exact H.
@@ -956,4 +972,198 @@ Proof.
   cbn. do 8 (split; [reflexivity|]). split.
   - intros v y [Hx|[]]. inversion Hx. reflexivity.
   - intros v en. unfold get_pp. cbn [t_pp find fst snd]. destruct (N.eqb_spec 0 v) as [<-|]; [|discriminate]. intro Hx. inversion Hx; subst. cbn. auto.
+Qed.
+
+(* ---- own proposals are PREPREPARE-typed (so a signature of this node on a COMMIT-typed header can only come from a COMMIT) ---- *)
+Definition out_typed (o : out) : Prop :=
+  match o with
+  | OSend _ (MPP r _ _) => r_type r = T_PREPREPARE
+  | OSend _ (MNV _ _ _ _ _ _ pp _ _) => r_type pp = T_PREPREPARE
+  | _ => True
+  end.
+Definition outs_typed (x : tc) : Prop := Forall out_typed (tc_out x).
+
+Ltac leaf := unfold outs_typed in *; cbn [tc_out tc_emit tc_set_t tc_set_v tc_bump tc_committed send_all] in *;
+             repeat (constructor; [cbn; auto|]); try assumption.
+Ltac crush :=
+  repeat match goal with
+  | |- context [if ?b then _ else _] => destruct b
+  | |- context [match ?o with Some _ => _ | None => _ end] => destruct o
+  end; leaf.
+
+Section T.
+Variable c : ncfg. Variable wm : option hv. Variable shut : bool.
+Lemma ot_check_committed x v h : outs_typed x -> outs_typed (check_committed c wm shut x v h).
+Proof. intro I. unfold check_committed, send_all. crush. Qed.
+Lemma ot_check_prepared x v h : outs_typed x -> outs_typed (check_prepared c wm shut x v h).
+Proof. intro I. unfold check_prepared. destruct (match t_prepared (tc_t x) with Some pv => pv =? v | None => false end); [exact I|].
+  destruct (is_preprepared _ _ _); [|exact I]. destruct (isQ_ids _ _); [|exact I]. apply ot_check_committed. unfold send_all. crush. Qed.
+Lemma ot_process_pp x r s b : outs_typed x -> outs_typed (process_pp c wm shut x r s b).
+Proof. intro I. unfold process_pp. destruct (negb _); [exact I|]. apply ot_check_prepared. unfold send_all. crush. Qed.
+Lemma ot_on_elected x v vs : outs_typed x -> outs_typed (on_elected c wm shut x v vs).
+Proof. intro I. unfold on_elected, init_view, send_all. cbn [tc_set_t tc_v]. destruct (N.ltb _ _); [exact I|]. destruct (latest_block vs) as [[b h]|]; crush. Qed.
+Lemma ot_check_elected x v : outs_typed x -> outs_typed (check_elected c wm shut x v).
+Proof. intro I. unfold check_elected. destruct (N.leb _ _); [exact I|]. destruct (votes_of _ _) eqn:E; [exact I|]. rewrite <- E. destruct (isQ_ids _ _); [apply ot_on_elected; exact I|exact I]. Qed.
+Lemma ot_thandle x m : outs_typed x -> outs_typed (thandle c wm shut x m).
+Proof.
+  intro I. destruct m; cbn [thandle].
+  - unfold handle_pp. destruct (negb _); [exact I|]. destruct (negb _); [exact I|]. destruct (negb _); [exact I|]. apply ot_process_pp; exact I.
+  - unfold handle_p. repeat (match goal with |- outs_typed (if ?b then _ else _) => destruct b; [exact I|] end). apply ot_check_prepared. crush.
+  - unfold handle_c. repeat (match goal with |- outs_typed (if ?b then _ else _) => destruct b; [exact I|] end). apply ot_check_committed. crush.
+  - unfold handle_vc. repeat (match goal with |- outs_typed (if ?b then _ else _) => destruct b; [exact I|] end).
+    destruct b, (v_proof v); try exact I; try (destruct (commitsTo _ _ _); [|exact I]); apply ot_check_elected; crush.
+  - unfold handle_nv. repeat (match goal with |- outs_typed (if ?b then _ else _) => destruct b; [exact I|] end).
+    assert (K : outs_typed (if negb (validate_pp c (tc_t x) pp pps) then x else match init_view nview (tc_set_t (set_latest nview (tc_t x)) x) with Some x1 => process_pp c wm shut x1 pp pps b | None => tc_set_t (set_latest nview (tc_t x)) x end)).
+    { destruct (negb _); [exact I|]. unfold init_view. cbn [tc_set_t tc_v]. destruct (N.ltb _ _); [exact I|]. apply ot_process_pp. crush. }
+    destruct (latest_vote votes); [destruct (v_proof v)|]; repeat (match goal with |- outs_typed (if ?b then _ else _) => destruct b; try exact I end); try exact K; try exact I.
+Qed.
+Lemma ot_move x h v : outs_typed x -> outs_typed (move_to_next_leader c wm shut x h v).
+Proof.
+  intro I. unfold move_to_next_leader. destruct (negb _); [exact I|]. unfold init_view. destruct (N.ltb _ _); [exact I|].
+  destruct (snd _); [crush|]. destruct (N.eqb _ _); [apply ot_check_elected; crush|crush].
+Qed.
+Lemma ot_start x lead : outs_typed x -> outs_typed (start_term c wm shut x lead).
+Proof. intro I. unfold start_term, init_view. destruct (N.ltb _ _); [exact I|]. crush. Qed.
+End T.
+
+Theorem trun_outs_typed c wm shut H cm fresh lead evs : outs_typed (trun c wm shut H cm fresh lead evs).
+Proof.
+  unfold trun. assert (S0 : outs_typed (tstart c wm shut H cm fresh lead)) by (unfold tstart; apply ot_start; constructor).
+  revert S0. generalize (tstart c wm shut H cm fresh lead). induction evs as [|e evs IH]; intros x S0; cbn [fold_left]; [exact S0|].
+  apply IH. destruct e; cbn [tstep]; [apply ot_thandle|apply ot_move]; exact S0.
+Qed.
+
+(* ---- a node only proposes (PREPREPARE, or the one inside its NEW_VIEW) in views it leads ---- *)
+Definition out_lead (cm : committee) (me : N) (o : out) : Prop :=
+  match o with
+  | OSend _ (MPP r _ _) => leaderOf cm (r_view r) = me
+  | OSend _ (MNV _ _ _ _ _ _ pp _ _) => leaderOf cm (r_view pp) = me
+  | _ => True
+  end.
+Definition outs_lead (cm : committee) (me : N) (x : tc) : Prop := t_cm (tc_t x) = cm /\ Forall (out_lead cm me) (tc_out x).
+
+Ltac lleaf := unfold outs_lead in *; cbn [tc_out tc_t tc_emit tc_set_t tc_set_v tc_bump tc_committed send_all store_c store_p set_prepared set_committed set_latest t_cm] in *;
+  match goal with H : _ /\ _ |- _ => destruct H as [?Hc ?Hf] end; split; [try assumption|repeat (constructor; [cbn; auto|]); try assumption].
+Ltac lcrush :=
+  repeat match goal with
+  | |- context [if ?b then _ else _] => destruct b
+  | |- context [match ?o with Some _ => _ | None => _ end] => destruct o
+  end; lleaf.
+
+Section Lead.
+Variable c : ncfg. Variable wm : option hv. Variable shut : bool. Variable cm : committee.
+Notation me := (c_me c).
+Lemma ol_store_pp x v e : outs_lead cm me x -> outs_lead cm me (tc_set_t (store_pp v e (tc_t x)) x).
+Proof. intros [A B]. split; [|exact B]. cbn [tc_set_t tc_t]. unfold store_pp. destruct (get_pp _ _); exact A. Qed.
+Lemma ol_store_vc x v vt b : outs_lead cm me x -> outs_lead cm me (tc_set_t (store_vc v vt b (tc_t x)) x).
+Proof. intros [A B]. split; [|exact B]. cbn [tc_set_t tc_t]. destruct (store_vc_hc v vt b (tc_t x)) as [_ E0]. rewrite E0. exact A. Qed.
+Lemma ol_check_committed x v h : outs_lead cm me x -> outs_lead cm me (check_committed c wm shut x v h).
+Proof. intro I. unfold check_committed, send_all. lcrush. Qed.
+Lemma ol_check_prepared x v h : outs_lead cm me x -> outs_lead cm me (check_prepared c wm shut x v h).
+Proof. intro I. unfold check_prepared. destruct (match t_prepared (tc_t x) with Some pv => pv =? v | None => false end); [exact I|].
+  destruct (is_preprepared _ _ _); [|exact I]. destruct (isQ_ids _ _); [|exact I]. apply ol_check_committed. unfold send_all. lcrush. Qed.
+Lemma ol_process_pp x r s b : outs_lead cm me x -> outs_lead cm me (process_pp c wm shut x r s b).
+Proof.
+  intro I. unfold process_pp. destruct (negb _); [exact I|]. apply ol_check_prepared. unfold send_all.
+  set (t0 := store_pp _ _ _). assert (E0 : t_cm t0 = t_cm (tc_t x)) by (subst t0; unfold store_pp; destruct (get_pp _ _); reflexivity).
+  destruct I as [A B]. split; [cbn [tc_emit tc_set_t tc_t store_p t_cm]; rewrite E0; exact A|].
+  cbn [tc_emit tc_set_t tc_out]. constructor; [exact Logic.I|]. destruct (has_p _ _ _ _), (has_pp _ _); cbn [tc_emit tc_out]; repeat (constructor; [exact Logic.I|]); exact B.
+Qed.
+Lemma ol_on_elected x v vs : leaderOf cm v = me -> outs_lead cm me x -> outs_lead cm me (on_elected c wm shut x v vs).
+Proof.
+  intros Hl I. unfold on_elected, init_view, send_all. cbn [tc_set_t tc_v]. destruct (N.ltb _ _); [destruct I; split; assumption|].
+  destruct I as [A B].
+  assert (G : forall b h x2, outs_lead cm me x2 -> outs_lead cm me
+     (tc_emit (OSend (others c (t_cm (tc_t (tc_set_t (store_pp v {| pe_ref := mk_ref T_PREPREPARE c (t_h (tc_t x2)) v h; pe_snd := my_sig c; pe_blk := Some b |} (tc_t x2))
+         (if has_pp (tc_t x2) v then x2 else tc_emit (OStore T_PREPREPARE (t_h (tc_t x2)) v h me) x2)))))
+        (MNV T_NEW_VIEW (c_inst c) (t_h (tc_t x2)) v (map fst vs) (my_sig c) (mk_ref T_PREPREPARE c (t_h (tc_t x2)) v h) (my_sig c) (Some b)))
+        (tc_set_t (store_pp v {| pe_ref := mk_ref T_PREPREPARE c (t_h (tc_t x2)) v h; pe_snd := my_sig c; pe_blk := Some b |} (tc_t x2))
+         (if has_pp (tc_t x2) v then x2 else tc_emit (OStore T_PREPREPARE (t_h (tc_t x2)) v h me) x2)))).
+  { intros b h x2 [A2 B2]. split.
+    - cbn [tc_emit tc_set_t tc_t]. unfold store_pp. destruct (get_pp _ _); exact A2.
+    - cbn [tc_emit tc_set_t tc_out]. constructor; [cbn; exact Hl|]. destruct (has_pp _ _); cbn [tc_emit tc_out]; repeat (constructor; [exact Logic.I|]); exact B2. }
+  destruct (latest_block vs) as [[b h]|].
+  - apply G. split; [exact A|]. cbn [tc_emit tc_set_v tc_set_t tc_out]. constructor; [exact Logic.I|exact B].
+  - destruct (negb _).
+    + split; [exact A|]. cbn [tc_emit tc_set_v tc_set_t tc_out]. constructor; [exact Logic.I|exact B].
+    + apply G. split; [exact A|]. cbn [tc_bump tc_emit tc_set_v tc_set_t tc_out]. constructor; [exact Logic.I|exact B].
+Qed.
+Lemma ol_check_elected x v : leaderOf cm v = me -> outs_lead cm me x -> outs_lead cm me (check_elected c wm shut x v).
+Proof. intros Hl I. unfold check_elected. destruct (N.leb _ _); [exact I|]. destruct (votes_of _ _) eqn:E0; [exact I|]. rewrite <- E0. destruct (isQ_ids _ _); [apply ol_on_elected; assumption|exact I]. Qed.
+Lemma ol_thandle x m : outs_lead cm me x -> outs_lead cm me (thandle c wm shut x m).
+Proof.
+  intro I. destruct m; cbn [thandle].
+  - unfold handle_pp. destruct (negb _); [exact I|]. destruct (negb _); [exact I|]. destruct (negb _); [exact I|]. apply ol_process_pp; exact I.
+  - unfold handle_p. repeat (match goal with |- outs_lead _ _ (if ?b then _ else _) => destruct b; [exact I|] end). apply ol_check_prepared. lcrush.
+  - unfold handle_c. repeat (match goal with |- outs_lead _ _ (if ?b then _ else _) => destruct b; [exact I|] end). apply ol_check_committed. lcrush.
+  - unfold handle_vc. destruct (N.eqb_spec (leaderOf (t_cm (tc_t x)) (v_view v)) me) as [El|]; cbn [negb]; [|exact I].
+    assert (El' : leaderOf cm (v_view v) = me) by (destruct I as [A _]; rewrite <- A; exact El).
+    repeat (match goal with |- outs_lead _ _ (if ?b then _ else _) => destruct b; [exact I|] end).
+    assert (K : outs_lead cm me (check_elected c wm shut (tc_set_t (store_vc (v_view v) v b (tc_t x)) (if has_vc (tc_t x) (v_view v) (s_id (v_snd v)) then x else tc_emit (OStore T_VIEW_CHANGE (t_h (tc_t x)) (v_view v) 0 (s_id (v_snd v))) x)) (v_view v))).
+    { apply ol_check_elected; [exact El'|]. destruct (has_vc _ _ _).
+      - apply ol_store_vc. exact I.
+      - destruct I as [A B]. split; [cbn [tc_set_t tc_t]; destruct (store_vc_hc (v_view v) v b (tc_t x)) as [_ E0]; rewrite E0; exact A|].
+        cbn [tc_set_t tc_emit tc_out]. constructor; [exact Logic.I|exact B]. }
+    destruct b, (v_proof v); try exact I; try (destruct (commitsTo _ _ _); [|exact I]); exact K.
+  - unfold handle_nv. repeat (match goal with |- outs_lead _ _ (if ?b then _ else _) => destruct b; [exact I|] end).
+    assert (K : outs_lead cm me (if negb (validate_pp c (tc_t x) pp pps) then x else match init_view nview (tc_set_t (set_latest nview (tc_t x)) x) with Some x1 => process_pp c wm shut x1 pp pps b | None => tc_set_t (set_latest nview (tc_t x)) x end)).
+    { destruct (negb _); [exact I|]. unfold init_view. cbn [tc_set_t tc_v]. destruct (N.ltb _ _); [destruct I; split; assumption|]. apply ol_process_pp.
+      destruct I as [A B]. split; [exact A|]. cbn [tc_emit tc_set_v tc_set_t tc_out]. constructor; [exact Logic.I|exact B]. }
+    destruct (latest_vote votes); [destruct (v_proof v)|]; repeat (match goal with |- outs_lead _ _ (if ?b then _ else _) => destruct b; try exact I end); try exact K; try exact I.
+Qed.
+Lemma ol_move x h v : outs_lead cm me x -> outs_lead cm me (move_to_next_leader c wm shut x h v).
+Proof.
+  intro I. unfold move_to_next_leader. destruct (negb _); [exact I|]. unfold init_view. destruct (N.ltb _ _); [exact I|].
+  destruct I as [A B].
+  destruct (snd _); [split; [exact A|cbn [tc_emit tc_set_v tc_out]; repeat (constructor; [exact Logic.I|]); exact B]|].
+  cbn [tc_v tc_emit tc_set_v]. destruct (N.eqb_spec (leaderOf (t_cm (tc_t x)) (wrap64 (v + 1))) me) as [El|].
+  - apply ol_check_elected; [rewrite <- A; exact El|]. split.
+    + cbn [tc_set_t tc_t]. match goal with |- t_cm (store_vc ?a ?b0 ?c0 ?d) = _ => destruct (store_vc_hc a b0 c0 d) as [_ E0]; rewrite E0 end. exact A.
+    + cbn [tc_set_t tc_out]. destruct (has_vc _ _ _); cbn [tc_emit tc_set_v tc_out]; repeat (constructor; [exact Logic.I|]); exact B.
+  - split; [exact A|]. cbn [tc_emit tc_set_v tc_out]. repeat (constructor; [exact Logic.I|]). exact B.
+Qed.
+Lemma ol_start wm0 shut0 H fresh lead : outs_lead cm me (tstart c wm0 shut0 H cm fresh lead).
+Proof.
+  unfold tstart, start_term, init_view. cbn [tc_v N.ltb N.compare tc_t new_tstate t_h t_cm].
+  destruct (N.ltb 1 H && negb lead); [split; [reflexivity|repeat constructor]|].
+  destruct (N.eqb_spec (leaderOf cm 0) me) as [El|]; cbn [negb]; [|split; [reflexivity|repeat constructor]].
+  destruct (negb _); [split; [reflexivity|repeat constructor]|].
+  split; [reflexivity|]. cbn [tc_emit tc_set_t tc_bump tc_set_v tc_out]. constructor; [cbn; exact El|]. repeat constructor.
+Qed.
+End Lead.
+
+Theorem trun_outs_lead c wm shut H cm fresh lead evs : outs_lead cm (c_me c) (trun c wm shut H cm fresh lead evs).
+Proof.
+  unfold trun. pose proof (ol_start c cm wm shut H fresh lead) as S0.
+  revert S0. generalize (tstart c wm shut H cm fresh lead). induction evs as [|e evs IH]; intros x S0; cbn [fold_left]; [exact S0|].
+  apply IH. destruct e; cbn [tstep]; [apply ol_thandle|apply ol_move]; exact S0.
+Qed.
+
+(* one endorsement per view: a PREPARE and an own proposal cannot meet in one view *)
+Lemma E_cases x v y : In (v, y) (E x) ->
+  (exists to m, In (OSend to m) (tc_out x) /\ In (v, y) (prop_of m)) \/
+  (exists to r s, In (OSend to (MP r s)) (tc_out x) /\ r_view r = v /\ r_hash r = y).
+Proof.
+  unfold E. intro H1. apply in_flat_map in H1. destruct H1 as (m1 & M1 & K1).
+  unfold sent_of in M1. apply in_flat_map in M1. destruct M1 as (o1 & O1 & P1).
+  destruct o1 as [to1 mm1| | | | | |]; cbn in P1; try contradiction. destruct P1 as [<-|[]].
+  destruct mm1 as [r1 s1 b1|r1 s1|r1 s1 o1|vt1 b1|? ? ? ? ? ? pp1 ? ?]; cbn [endorsed_of] in K1; try contradiction.
+  - left. exists to1, (MPP r1 s1 b1). split; [exact O1|exact K1].
+  - right. destruct K1 as [K1|[]]. inversion K1. exists to1, r1, s1. auto.
+  - left. eexists to1, _. split; [exact O1|exact K1].
+Qed.
+
+Lemma E_unique c x v y y' : TInv c x -> outs_lead (t_cm (tc_t x)) (c_me c) x -> In (v, y) (E x) -> In (v, y') (E x) -> y = y'.
+Proof.
+  intros TI [_ OL] H1 H2. rewrite Forall_forall in OL.
+  assert (PROPS : forall to m z, In (OSend to m) (tc_out x) -> In (v, z) (prop_of m) -> In (v, z) (props (tc_out x))).
+  { intros to m z Ho Hp. unfold props. apply in_flat_map. exists m. split; [|exact Hp]. unfold sent_of. apply in_flat_map. exists (OSend to m). split; [exact Ho|left; reflexivity]. }
+  assert (LEAD : forall to m z, In (OSend to m) (tc_out x) -> In (v, z) (prop_of m) -> leaderOf (t_cm (tc_t x)) v = c_me c).
+  { intros to m z Ho Hp. specialize (OL _ Ho). destruct m; cbn [prop_of] in Hp; try contradiction; destruct Hp as [Hp|[]]; inversion Hp; subst; exact OL. }
+  destruct (E_cases x v y H1) as [(to1 & m1 & O1 & P1)|(to1 & r1 & s1 & O1 & V1 & Y1)];
+  destruct (E_cases x v y' H2) as [(to2 & m2 & O2 & P2)|(to2 & r2 & s2 & O2 & V2 & Y2)].
+  - apply (proposal_once_per_view c x v); [exact TI|apply (PROPS to1 m1 y O1 P1)|apply (PROPS to2 m2 y' O2 P2)].
+  - exfalso. destruct (ti_mp _ _ TI _ _ _ O2) as (_ & _ & _ & en & _ & _ & _ & Hn). apply Hn. rewrite V2. apply (LEAD to1 m1 y O1 P1).
+  - exfalso. destruct (ti_mp _ _ TI _ _ _ O1) as (_ & _ & _ & en & _ & _ & _ & Hn). apply Hn. rewrite V1. apply (LEAD to2 m2 y' O2 P2).
+  - subst. apply (prepare_once_per_view c x _ _ _ _ _ _ TI O1 O2). congruence.
 Qed.
